@@ -191,12 +191,12 @@ SM_BPM_STR = ["120.000", "60.000", "90.000", "150.000", "173.500", "180.000", "2
 SM_DIFFS = ["Beginner", "Easy", "Medium", "Hard", "Challenge", "Edit"]
 
 
-def gen_sm_notes(r: random.Random, keys: int, n_measures: int, density=0.25) -> list[list[str]]:
+def gen_sm_notes(r: random.Random, keys: int, n_measures: int, density=0.25, symbols=None, last_col=False) -> list[list[str]]:
     """measures of rows with well-paired hold/roll heads and ends"""
     open_: set[int] = set()
     measures = []
     for m in range(n_measures):
-        R = r.choice(SM_ROWS)
+        R = r.choice(SM_ROWS[:13] if last_col else SM_ROWS)
         if R > 48 and r.random() < 0.5:
             R = r.choice([4, 8, 16])
         p = density * min(1.0, 8.0 / R) * r.choice([0.5, 1, 2])
@@ -210,7 +210,7 @@ def gen_sm_notes(r: random.Random, keys: int, n_measures: int, density=0.25) -> 
                         ch = "3"
                         open_.discard(c)
                 elif r.random() < p:
-                    ch = r.choice(["1", "1", "1", "1", "2", "2", "4", "M", "L", "F", "K"])
+                    ch = r.choice(symbols or ["1", "1", "1", "1", "2", "2", "4", "M", "L", "F", "K"])
                     if ch in "24":
                         open_.add(c)
                 row.append(ch)
@@ -219,17 +219,24 @@ def gen_sm_notes(r: random.Random, keys: int, n_measures: int, density=0.25) -> 
     if open_:
         rows = ["".join("3" if c in open_ else "0" for c in range(keys))] + ["0" * keys] * 3
         measures.append(rows)
+    if last_col and not any(row[keys - 1] != "0" for rows in measures for row in rows):
+        measures.append(["0" * (keys - 1) + "1"] + ["0" * keys] * 3)
     return measures
 
 
-def gen_sm_doc(r: random.Random, hi: int = 4) -> dict:
+def gen_sm_doc(r: random.Random, hi: int = 4, pipeline: dict | None = None) -> dict:
+    """pipeline (C09 sources): {keys: allowed key counts, offset0: bool} -> taps/holds only, tempo changes on measure lines"""
     n_charts = r.choice([1, 1, 2, 3, 4])
     n_measures = r.randint(1, max(2, min(6, hi)))
     nb = r.choice([1, 1, 2, 3, 4, 6])
     beats = {0}
-    while len(beats) < nb:
+    if pipeline:
+        nb = min(nb, n_measures + 1)
+    tries = 0
+    while len(beats) < nb and tries < 200:
+        tries += 1
         x = r.random()
-        if x < 0.5:
+        if x < 0.5 or pipeline:
             beats.add(4 * r.randint(0, n_measures))  # measure line
         else:
             beats.add(r.randint(0, 4 * n_measures * 8) / 8)  # 1/8-beat grid: exact in three decimals (subset of the 1/48 grid)
@@ -248,11 +255,15 @@ def gen_sm_doc(r: random.Random, hi: int = 4) -> dict:
     charts = []
     for _ in range(n_charts):
         ty, keys = r.choice(SM_TYPES)
+        if pipeline:
+            ty, keys = r.choice([(t, k) for t, k in SM_TYPES if k in pipeline["keys"] and t in ("dance-single", "dance-double", "dance-solo", "dance-threepanel", "kb7-single")])
         charts.append(dict(type=ty, desc=r.choice(["", "d", "me", "K. Ward"]), diff=r.choice(SM_DIFFS), meter=r.choice([1, 5, 12, 20]),
                            radar=r.choice(["0,0,0,0,0", "0.5,0.25,0,1,0.125", "0.000,0.000,0.000,0.000,0.000"]),
-                           measures=gen_sm_notes(r, keys, n_measures)))
-    return dict(meta=meta, offset=r.choice(["0.000", "-0.250", "0.100", "1.234", "-12.500", "0"]), bpms=bpms,
-                stops=r.choice([None, None, ""]), charts=charts)
+                           measures=gen_sm_notes(r, keys, n_measures, symbols=["1", "1", "1", "2"] if pipeline else None, last_col=bool(pipeline))))
+    off = r.choice(["0.000", "-0.250", "0.100", "1.234", "-12.500", "0"])
+    if pipeline and pipeline.get("offset0"):
+        off = "0.000"
+    return dict(meta=meta, offset=off, bpms=bpms, stops=r.choice([None, None, ""]), charts=charts)
 
 
 def gen_sm_fmt(r: random.Random, knobs: dict) -> dict:
@@ -383,11 +394,18 @@ def _id36(n: int) -> bytes:
     return (B36[n // 36] + B36[n % 36]).encode("ascii")
 
 
-def gen_bms_doc(r: random.Random, hi: int = 6, layout: str | None = None, odd_tempo_subdiv: bool = False) -> tuple[dict, str]:
+def gen_bms_doc(r: random.Random, hi: int = 6, layout: str | None = None, odd_tempo_subdiv: bool = False, pipeline: dict | None = None) -> tuple[dict, str]:
+    """pipeline (C09 sources): {keys: allowed key counts} -> columns 0..k-1 of the BME layout, last column used,
+    tempo changes at the start of measures only"""
     from .ref.bms import LAYOUTS
 
     layout = layout or r.choice(BMS_LAYOUTS)
     lanes = list(LAYOUTS[layout].keys())
+    if pipeline:
+        layout = "BME"
+        k = r.choice(sorted(pipeline["keys"]))
+        rev = {v: c for c, v in LAYOUTS["BME"].items()}
+        lanes = [rev[c] for c in range(k)]
     n_meas = r.randint(1, max(2, min(8, hi)))
     wav_ids = [_id36(i) for i in r.sample(range(1, 200), r.choice([1, 2, 4, 6]))]
     lnobj = None
@@ -423,16 +441,16 @@ def gen_bms_doc(r: random.Random, hi: int = 6, layout: str | None = None, odd_te
     lines = []
     # notes: per lane a walk over positions
     for ch in lanes:
-        if r.random() < 0.35:
+        if r.random() < 0.35 and not (pipeline and ch == lanes[-1]):
             continue
         open_head = False
         for m in range(n_meas):
-            if r.random() < 0.4:
+            if r.random() < 0.4 and not (pipeline and ch == lanes[-1] and m == 0):
                 continue
             n_lines = r.choice([1, 1, 1, 2])
             used: set = set()
             for _ in range(n_lines):
-                n = r.choice(BMS_SUBDIV)
+                n = r.choice(BMS_SUBDIV[:17] if pipeline else BMS_SUBDIV)
                 seq = [b"00"] * n
                 k = r.randint(1, max(1, min(n, 3)))
                 idxs = sorted(r.sample(range(n), min(k, n)))
@@ -466,6 +484,8 @@ def gen_bms_doc(r: random.Random, hi: int = 6, layout: str | None = None, odd_te
         n = r.choice(tempo_divs)
         seq = [b"00"] * n
         i = r.randrange(n)
+        if pipeline:
+            i = 0
         if ex_ids and r.random() < 0.5:
             seq[i] = r.choice(ex_ids)
             lines.append([m, b"08", seq, n])
@@ -508,7 +528,7 @@ OJN_SLOTS = [1, 2, 3, 4, 4, 6, 8, 8, 12, 16, 16, 24, 32, 48, 64, 96, 192, 5, 7]
 OJN_BPMS = [130.0, 120.0, 60.0, 200.0, 173.5, 87.25, 240.0, 90.0, 0.75, 300.0, 150.0]
 
 
-def gen_ojn_level(r: random.Random, n_meas: int, hi: int) -> list:
+def gen_ojn_level(r: random.Random, n_meas: int, hi: int, tempo_on_measures=False) -> list:
     pkgs = []
     # notes per column, long notes nest across packages and measures
     for col in range(7):
@@ -518,7 +538,7 @@ def gen_ojn_level(r: random.Random, n_meas: int, hi: int) -> list:
         for m in range(n_meas):
             if r.random() < 0.45 and not open_:
                 continue
-            n = r.choice(OJN_SLOTS)
+            n = r.choice(OJN_SLOTS[:17] if tempo_on_measures else OJN_SLOTS)
             ev = [0] * n
             k = r.randint(1, max(1, min(n, 3)))
             for i in sorted(r.sample(range(n), min(k, n))):
@@ -539,7 +559,7 @@ def gen_ojn_level(r: random.Random, n_meas: int, hi: int) -> list:
     for _ in range(r.choice([0, 0, 1, 2, 3, 6])):
         m = r.randint(0, n_meas + 1)
         n = r.choice([1, 1, 2, 4, 8, 16, 32, 3, 12])
-        i = r.randrange(n)
+        i = 0 if tempo_on_measures else r.randrange(n)
         if (m, Fraction(i, n)) in used:
             continue
         used.add((m, Fraction(i, n)))
@@ -553,9 +573,20 @@ def gen_ojn_level(r: random.Random, n_meas: int, hi: int) -> list:
     return pkgs
 
 
-def gen_ojn_doc(r: random.Random, hi: int = 6) -> dict:
+def gen_ojn_doc(r: random.Random, hi: int = 6, pipeline: dict | None = None) -> dict:
     n_meas = r.randint(1, max(2, min(6, hi)))
-    levels = [gen_ojn_level(r, n_meas, hi) if r.random() < 0.9 else [] for _ in range(3)]
+    if pipeline:
+        levels = []
+        for _ in range(3):
+            lv = gen_ojn_level(r, n_meas, hi, tempo_on_measures=True)
+            if not any(2 <= p[1] <= 8 and any(p[2]) for p in lv):
+                lv.append([0, 8, [[1, 0, 8, 0]]])
+            if not any(p[1] == 8 for p in lv):
+                lv.append([0, 8, [[1, 0, 8, 0]]])  # the last column is used (key count is inferred from it)
+            lv.sort(key=lambda p: (p[0], p[1]))
+            levels.append(lv)
+    else:
+        levels = [gen_ojn_level(r, n_meas, hi) if r.random() < 0.9 else [] for _ in range(3)]
     header = dict(song_id=r.choice([1, 1000, 31337]), genre=r.randrange(11), bpm=r.choice(OJN_BPMS[:8]),
                   level=[r.randint(1, 40), r.randint(1, 60), r.randint(1, 99), 0], measure_count=[n_meas + 1] * 3,
                   title=r.choice(ASCII_T), artist=r.choice(ASCII_T), creator=r.choice(["me", "Evening", "c c", ""]),
@@ -565,3 +596,80 @@ def gen_ojn_doc(r: random.Random, hi: int = 6) -> dict:
 
 
 ASCII_T = ["Song", "A B", "x", "Title 1", "Caravan", "Escapes!", "q-w_e", "Take"]
+
+
+# ---------------------------------------------------------------- C09: osu / Quaver sources on integer milliseconds AND on the snap grid
+
+# subdivisions d with (60000/bpm) % d == 0, all dividing 48 (so that every measure fits the .sm writer's 384-row cap)
+PIPE_BPMS = {60.0: (1, 2, 4, 8), 120.0: (1, 2, 4), 240.0: (1, 2), 150.0: (1, 2, 4, 8, 16), 100.0: (1, 2, 3, 4, 6, 8),
+             200.0: (1, 2, 3, 4, 6), 75.0: (1, 2, 4, 8, 16), 50.0: (1, 2, 3, 4, 6, 8, 12, 16)}
+
+
+def gen_int_grid(r: random.Random, keys: int, hi: int, t0: int = 0):
+    """(tempo [(ms int, bpm)], hits [(ms, col)], holds [(ms, col, end)]): every time is a whole millisecond and lies on the
+    snap grid of its tempo segment; tempo changes on measure lines; per column objects do not overlap; last column used."""
+    nm = r.randint(1, 4)
+    nb = r.choice([1, 1, 2, 3])
+    tempo = []
+    t = t0
+    meas = sorted(set([0] + [r.randint(1, max(1, nm - 1)) for _ in range(nb - 1)]))
+    prev_m, prev_bpm = 0, None
+    for m in meas:
+        bpm = r.choice(list(PIPE_BPMS))
+        if prev_bpm is not None:
+            t += (m - prev_m) * 4 * int(60000 / prev_bpm)
+        tempo.append((t, bpm, m))
+        prev_m, prev_bpm = m, bpm
+    pool = set()
+    for _ in range(max(3, size(r, hi) * 2)):
+        seg = r.choice(range(len(tempo)))
+        st, bpm, m0 = tempo[seg]
+        m1 = tempo[seg + 1][2] if seg + 1 < len(tempo) else nm
+        if m1 <= m0:
+            m1 = m0 + 1
+        d = r.choice(PIPE_BPMS[bpm])
+        beat_ms = int(60000 / bpm)
+        k = r.randrange(0, (m1 - m0) * 4 * d)
+        pool.add(st + k * beat_ms // d)
+    pool = sorted(pool)
+    hits, holds = [], []
+    for c in range(keys):
+        if r.random() < 0.3 and c != keys - 1:
+            continue
+        ps = sorted(r.sample(pool, r.randint(1, max(1, min(len(pool), 4)))))
+        i = 0
+        while i < len(ps):
+            if i + 1 < len(ps) and r.random() < 0.3:
+                holds.append((ps[i], c, ps[i + 1]))
+                i += 2
+            else:
+                hits.append((ps[i], c))
+                i += 1
+    return [(t, b) for t, b, _ in tempo], hits, holds
+
+
+def gen_osu_pipeline_doc(r: random.Random, keys: int, hi: int, t0: int = 0) -> dict:
+    doc = gen_osu_doc(r, 2, keys=keys)
+    tempo, hits, holds = gen_int_grid(r, keys, hi, t0)
+    objs = []
+    for t, c in hits:
+        lo, hi_x = ref_osu.column_x_range(c, keys)
+        objs.append(dict(x=r.randint(lo, hi_x), y=192, offset=t, type=1, hitsound_set=0, sample_set=0, addition_set=0, custom_set=0, volume=0, hitsound_file=""))
+    for t, c, e in holds:
+        lo, hi_x = ref_osu.column_x_range(c, keys)
+        objs.append(dict(x=r.randint(lo, hi_x), y=192, offset=t, end=e, type=128, hitsound_set=0, sample_set=0, addition_set=0, custom_set=0, volume=0, hitsound_file=""))
+    objs.sort(key=lambda o: o["offset"])
+    doc["objs"] = objs
+    doc["tps"] = [dict(kind="bpm", offset=t, code=repr(60000.0 / b), meter=4, sample_set=0, sample_set_index=0, volume=50, effects=0) for t, b in tempo]
+    doc["samples"] = []
+    return doc
+
+
+def gen_qua_pipeline_doc(r: random.Random, keys: int, hi: int, t0: int = 0) -> dict:
+    doc = gen_qua_doc(r, 2)
+    doc["meta"]["Mode"] = {4: "Keys4", 7: "Keys7", 8: "Keys8"}[keys]
+    tempo, hits, holds = gen_int_grid(r, keys, hi, t0)
+    doc["tps"] = [dict(StartTime=t, Bpm=b) for t, b in tempo]
+    doc["svs"] = [dict(StartTime=t0 - r.choice([500, 100, 0]), Multiplier=1.5)] if r.random() < 0.4 else []
+    doc["objs"] = [dict(StartTime=t, Lane=c + 1, KeySounds=[]) for t, c in hits] + [dict(StartTime=t, Lane=c + 1, EndTime=e, KeySounds=[]) for t, c, e in holds]
+    return doc
